@@ -866,6 +866,9 @@ func luaModulo(lhs, rhs LNumber) LNumber {
 	if frhs > 0 && v < 0 || frhs < 0 && v > 0 {
 		v += frhs
 	}
+	if v == 0 {
+		return 0 // a - floor(a/b)*b is never -0 (math.Mod keeps the sign of the dividend)
+	}
 	return LNumber(v)
 }
 
